@@ -465,7 +465,13 @@ impl<'a> UserModel<'a> {
         let style = self.model.get_style_for_cell(sheet, row, column)?;
 
         let line_count = value.split('\n').count() as f64;
-        let row_height = self.model.get_row_height(sheet, row)?;
+        // The actual height: a hidden row reports a height of 0, which must neither
+        // trigger the auto fit nor be recorded as the height to go back to on undo
+        let row_height = self
+            .model
+            .workbook
+            .worksheet(sheet)?
+            .actual_row_height(row)?;
         // This is in sync with the front-end auto fit row
         let font_size = style.font.sz as f64;
         let line_height = font_size * 1.5;
@@ -1352,7 +1358,12 @@ impl<'a> UserModel<'a> {
     ) -> Result<(), String> {
         let mut diff_list = Vec::new();
         for column in column_start..=column_end {
-            let old_value = self.model.get_column_width(sheet, column)?;
+            // the actual width, not the visible one (0 for a hidden column)
+            let old_value = self
+                .model
+                .workbook
+                .worksheet(sheet)?
+                .get_actual_column_width(column)?;
             diff_list.push(Diff::SetColumnWidth {
                 sheet,
                 column,
@@ -1501,7 +1512,12 @@ impl<'a> UserModel<'a> {
     ) -> Result<(), String> {
         let mut diff_list = Vec::new();
         for row in row_start..=row_end {
-            let old_value = self.model.get_row_height(sheet, row)?;
+            // the actual height, not the visible one (0 for a hidden row)
+            let old_value = self
+                .model
+                .workbook
+                .worksheet(sheet)?
+                .actual_row_height(row)?;
             diff_list.push(Diff::SetRowHeight {
                 sheet,
                 row,
